@@ -229,6 +229,11 @@ def main():
         nonlocal n_eval
         raw = variant(ring, rot, rev, closed)
         poly, hm = mk_poly(raw, holes)
+        if (rot + len(holes) + len(raw)) % 2 == 0:
+            # membership is a function of the polygon and the coordinate: on every other case the same object has first
+            # been converted, measured, hashed and exported (which fills its caches)
+            guarded(lambda: (poly.to_shapely(), poly.area, poly.bounds, poly.centroid, hash(poly), poly.to_wkt(), poly.to_geojson()))
+            ck.count('membership after other queries on the same object')
         stored = outline_of(poly)
         add(f'KNorm false {ringlit(raw)} {ringlit(stored)}',
             {'k': 'norm', 'ring': name, 'raw': [list(map(str, v)) for v in raw], 'stored': [list(map(str, v)) for v in stored]})
